@@ -82,7 +82,8 @@ class Disk:
         r = self.removed_at[k]
         last = ws[-1] if ws else None
         unwritable = len(names[k]) > 255 or len(names[k]) == 0
-        if last is not None and (r is None or r < last["seq"]):
+        # within one put the eviction comes before the new write is spawned, hence <=
+        if last is not None and (r is None or r <= last["seq"]):
             if last["done"] and not unwritable:
                 return ("value", last["v"])
             return None
